@@ -48,23 +48,23 @@ def cases(tier, seed):
             o.append("--noopt")
         return o
 
-    for rep in range(1 if tier == "quick" else 10):
+    for rep in range(1 if tier == "quick" else 40):
         for spec in workload.lattice_cases(seed * 37 + rep, opts_fn=opts):
             spec["kind"] = "run"
             out.append(spec)
-    n = 90 if tier == "quick" else 4000
+    n = 90 if tier == "quick" else 20000
     for spec in workload.standard_cases(tier, seed, n, n, opts_fn=opts, frag_share=0.3,
-                                        p={"variant_prob": 0.25, "na_prob": 0.25, "waters": [0, 2, 4]}):
+                                        p={"icode_prob": 0.2, "variant_prob": 0.25, "na_prob": 0.25, "waters": [0, 2, 4]}):
         spec["kind"] = "run"
         out.append(spec)
-    nt = 60 if tier == "quick" else 2500
+    nt = 60 if tier == "quick" else 10000
     rng = random.Random(seed + 99)
     for i in range(nt):
         ff = common.FFS[i % 6]
         spec = {"kind": "run", "w": "topostress", "seed": seed * 50021 + i, "ff": ff, "p": {}}
         spec["opts"] = opts(rng, spec)
         out.append(spec)
-    ncyc = 10 if tier == "quick" else 120
+    ncyc = 10 if tier == "quick" else 400
     for i in range(ncyc):
         out.append({"kind": "cyclic", "seed": seed * 13 + i, "ff": common.FFS[i % 6],
                     "d": [None, 1.30, 1.34, 1.349, 1.351, 1.36, 1.45, 1.60, 1.20, 1.33][i % 10]})
